@@ -1,9 +1,11 @@
+#![allow(dead_code, unused_variables)]
 //! E4 cttrace: exact edge + load/store-address traces of the compiled code (LLVM SanitizerCoverage
 //! callbacks implemented here), compared across inputs that differ only in secret data.
 //! Built with: -Cpasses=sancov-module -Cllvm-args=-sanitizer-coverage-level=3 -trace-pc-guard -trace-loads -trace-stores
 //! Output: one JSON line per group: {"group":..,"inputs":N,"distinct_traces":D,"events":E,...}
 #![allow(clippy::missing_safety_doc, static_mut_refs)]
 
+#[cfg(feature = "kernels")]
 use fips204::verif_hooks as hk;
 use rand_core::{CryptoRng, RngCore};
 
@@ -214,14 +216,17 @@ fn main() {
         }
         g.emit();
         // positive control inside the library: is_in_range exits early on failure
-        let mut g = Group::new("control:is_in_range-on-failing-input");
-        for k in (0..256).step_by(16) {
-            let mut w = [0i32; 256];
-            w[k] = 100;
-            let (_, t) = traced(|| hk::is_in_range(std::hint::black_box(&w), 2, 2));
-            g.add(t, || format!("pos{k}"));
+        #[cfg(feature = "kernels")]
+        {
+            let mut g = Group::new("control:is_in_range-on-failing-input");
+            for k in (0..256).step_by(16) {
+                let mut w = [0i32; 256];
+                w[k] = 100;
+                let (_, t) = traced(|| hk::is_in_range(std::hint::black_box(&w), 2, 2));
+                g.add(t, || format!("pos{k}"));
+            }
+            g.emit();
         }
-        g.emit();
     }
     // ---- (i) whole pipeline in constant-time test mode
     let inputs = rng_inputs(if thorough { 4096 } else { 192 }, seed);
@@ -237,6 +242,15 @@ fn main() {
         pipeline!(g, ml_dsa_87, sub, msg);
         g.emit();
     }
+    #[cfg(feature = "kernels")]
+    kernel_groups(thorough, &inputs);
+    #[cfg(not(feature = "kernels"))]
+    println!("{{\"no_kernels\":true}}");
+    println!("{{\"done\":true}}");
+}
+
+#[cfg(feature = "kernels")]
+fn kernel_groups(thorough: bool, inputs: &[([u8; 64], String)]) {
     // ---- (ii) scalar kernels on their complete domain
     macro_rules! scalar_group {
         ($name:expr, $range:expr, $f:expr) => {{
@@ -385,5 +399,4 @@ fn main() {
         }
         g.emit();
     }
-    println!("{{\"done\":true}}");
 }
